@@ -100,6 +100,112 @@ theorem pre2_of_local (a b c0 : Ch) (w' rest : List Ch) (h : pre [a, b] (c0 :: w
   | nil => simp [pre]
   | cons c1 w'' => simpa [pre] using h
 
+theorem fracLen_le (s : List Ch) : fracLen s ≤ s.length := by
+  unfold fracLen
+  split
+  · rename_i r
+    split
+    · omega
+    · have := spanLen_le isDigit r; simp; omega
+  · omega
+
+theorem fracLen_append (w1 rest : List Ch) (h : headNot rest (fun d => isDigit d || d == 46 || d == 101 || d == 69) = true) :
+    fracLen (w1 ++ rest) = fracLen w1 := by
+  have hd : ∀ x, stopsIn isDigit x rest = true := by
+    intro x
+    simp only [stopsIn, Bool.or_eq_true, decide_eq_true_eq]; right
+    cases rest with
+    | nil => rfl
+    | cons d r => simp only [headNot, Bool.not_eq_true', Bool.or_eq_false_iff] at h; simp [h.1.1.1]
+  cases w1 with
+  | nil =>
+    cases rest with
+    | nil => rfl
+    | cons d r =>
+      simp only [headNot, Bool.not_eq_true', Bool.or_eq_false_iff] at h
+      have : d ≠ 46 := by simpa using h.1.1.2
+      simp only [List.nil_append]
+      unfold fracLen
+      split
+      · rename_i heq; simp at heq; exact absurd heq.1 this
+      · rfl
+  | cons c w1' =>
+    by_cases hc : c = 46
+    · subst hc
+      simp only [List.cons_append, fracLen, spanLen_append _ _ _ (hd w1')]
+    · simp only [List.cons_append]
+      unfold fracLen
+      split
+      · rename_i heq; simp at heq; exact absurd heq.1 hc
+      · split
+        · rename_i heq; simp at heq; exact absurd heq.1 hc
+        · rfl
+
+theorem expLen_single (c : Ch) : expLen [c] = 0 := by
+  simp only [expLen]; split <;> rfl
+
+theorem expLen_append (w2 rest : List Ch) (h : headNot rest (fun d => isDigit d || d == 46 || d == 101 || d == 69) = true)
+    (hne : ∀ c, w2 = [c] → ¬ (c = 101 ∨ c = 69)) : expLen (w2 ++ rest) = expLen w2 := by
+  have hd : ∀ x, stopsIn isDigit x rest = true := by
+    intro x
+    simp only [stopsIn, Bool.or_eq_true, decide_eq_true_eq]; right
+    cases rest with
+    | nil => rfl
+    | cons d r => simp only [headNot, Bool.not_eq_true', Bool.or_eq_false_iff] at h; simp [h.1.1.1]
+  cases w2 with
+  | nil =>
+    cases rest with
+    | nil => rfl
+    | cons d r =>
+      simp only [headNot, Bool.not_eq_true', Bool.or_eq_false_iff] at h
+      have h1 : (d == 101) = false := h.1.2
+      have h2 : (d == 69) = false := h.2
+      simp [expLen, h1, h2]
+  | cons c w2' =>
+    cases w2' with
+    | nil =>
+      have := hne c rfl
+      have h1 : (c == 101) = false := by simp; intro e; exact this (Or.inl e)
+      have h2 : (c == 69) = false := by simp; intro e; exact this (Or.inr e)
+      simp [expLen, h1, h2]
+    | cons sg w2'' =>
+      simp only [List.cons_append, expLen]
+      split
+      · split
+        · rw [spanLen_append _ _ _ (hd w2'')]
+        · rw [← List.cons_append, spanLen_append _ _ _ (hd (sg :: w2''))]
+      · rfl
+
+theorem floatLen_append (w rest : List Ch) (hw : floatLen w = w.length) (hpos : w ≠ [])
+    (h : headNot rest (fun d => isDigit d || d == 46 || d == 101 || d == 69) = true) :
+    floatLen (w ++ rest) = floatLen w := by
+  have hd : ∀ x, stopsIn isDigit x rest = true := by
+    intro x
+    simp only [stopsIn, Bool.or_eq_true, decide_eq_true_eq]; right
+    cases rest with
+    | nil => rfl
+    | cons d r => simp only [headNot, Bool.not_eq_true', Bool.or_eq_false_iff] at h; simp [h.1.1.1]
+  have hlen : 0 < w.length := List.length_pos_iff.mpr hpos
+  have hd0 : spanLen isDigit w ≠ 0 := by
+    intro e
+    simp only [floatLen, e, if_true] at hw
+    omega
+  have hdle := spanLen_le isDigit w
+  have e1 : spanLen isDigit (w ++ rest) = spanLen isDigit w := spanLen_append _ _ _ (hd w)
+  have hfle := fracLen_le (w.drop (spanLen isDigit w))
+  simp only [List.length_drop] at hfle
+  have hw' := hw
+  simp only [floatLen, hd0, if_false] at hw'
+  simp only [floatLen, e1, hd0, if_false]
+  rw [List.drop_append_of_le_length hdle, fracLen_append _ _ h,
+      List.drop_append_of_le_length (by omega)]
+  rw [expLen_append _ _ h]
+  intro c hc hce
+  rw [hc, expLen_single] at hw'
+  have : (w.drop (spanLen isDigit w + fracLen (w.drop (spanLen isDigit w)))).length = 1 := by rw [hc]; rfl
+  simp only [List.length_drop] at this
+  omega
+
 theorem matchLen_local (rules : List Rule) (w rest : List Ch) (h : Closed rules w rest = true) :
     ∀ r ∈ rules, matchLen r (w ++ rest) = matchLen r w := by
   cases w with
@@ -187,33 +293,9 @@ theorem matchLen_local (rules : List Rule) (w rest : List Ch) (h : Closed rules 
         rcases hfl with hfl | hfl
         · simp [hd] at hfl
         · obtain ⟨hall, hhead⟩ := hfl
-          have e1 : spanLen isDigit (c0 :: w' ++ rest) = (c0 :: w').length := by
-            rw [spanLen_append _ _ _ hnum, spanLen_all _ _ hall]
-          have e2 : spanLen isDigit (c0 :: w') = (c0 :: w').length := spanLen_all _ _ hall
-          rw [e1, e2]
-          have hne : (c0 :: w').length ≠ 0 := by simp
-          simp only [hne, if_false, List.drop_left]
-          have fr : fracLen rest = 0 := by
-            cases rest with
-            | nil => simp [fracLen]
-            | cons d r' =>
-              simp only [headNot, Bool.not_eq_true', Bool.or_eq_false_iff] at hhead
-              have : d ≠ 46 := by simpa using hhead.1.1.2
-              unfold fracLen
-              split
-              · rename_i heq; simp at heq; exact absurd heq.1 this
-              · rfl
-          have ex : expLen rest = 0 := by
-            cases rest with
-            | nil => simp [expLen]
-            | cons d r' =>
-              simp only [headNot, Bool.not_eq_true', Bool.or_eq_false_iff] at hhead
-              have h1 : (d == 101) = false := hhead.1.2
-              have h2 : (d == 69) = false := hhead.2
-              simp [expLen, h1, h2]
-          have fr0 : fracLen ([] : List Ch) = 0 := by simp [fracLen]
-          have ex0 : expLen ([] : List Ch) = 0 := by simp [expLen]
-          simp [fr, ex, fr0, ex0]
+          have hw : floatLen (c0 :: w') = (c0 :: w').length := by simpa using hall
+          have := floatLen_append (c0 :: w') rest hw (by simp) hhead
+          simpa [floatLen] using this
     | anyChar => simp [matchLen]
     | string =>
       have : c0 ≠ 34 := h34
@@ -1093,5 +1175,32 @@ theorem tokensOf_rename (cfg : Cfg) (isType' : Nat → List Ch → Bool) (ρ : L
       have := ih (n + (action cfg n it.r it.w).1.length) (fun it' hit' => h it' (List.mem_cons_of_mem _ hit'))
       simp only [renItems] at this
       rw [this]
+
+/-! ### whole texts -/
+
+theorem tokensOf_congr (cfg : Cfg) : ∀ (items items' : List Item) (n : Nat),
+    items.map (fun i => (i.w, i.r)) = items'.map (fun i => (i.w, i.r)) → tokensOf cfg n items = tokensOf cfg n items' := by
+  intro items
+  induction items with
+  | nil => intro items' n h; cases items' with
+    | nil => rfl
+    | cons a b => simp at h
+  | cons it rest ih =>
+    intro items' n h
+    cases items' with
+    | nil => simp at h
+    | cons it' rest' =>
+      simp only [List.map_cons, List.cons.injEq, Prod.mk.injEq] at h
+      obtain ⟨⟨hw, hr⟩, ht⟩ := h
+      simp only [tokensOf, hw, hr]
+      rw [ih rest' _ ht]
+
+/-- the whole text: a leading separator, then the items -/
+theorem lex_text (cfg : Cfg) (hwf : RulesWF cfg.rules = true) (hnp : NonProperty cfg) (sep0 : List Triv) (items : List Item)
+    (h0 : sepOK sep0 (renderItems items) = true) (h : Renderable cfg items = true) :
+    lex cfg (sepText sep0 ++ renderItems items) = tokensOf cfg 0 items := by
+  unfold lex
+  rw [lexGo_sep cfg hwf hnp sep0 _ _ 0 h0 (by omega)]
+  exact lex_render cfg hwf hnp items _ 0 h (by simp; omega)
 
 end UtapModel.C09
